@@ -63,4 +63,17 @@ def verdictGo (c : Cfg) (ex : Expiry) : List Bool → List Nat → List Nat → 
 def verdict (c : Cfg) (ex : Expiry) (snaps : List Snap) : String :=
   verdictGo c ex c.unhealthy (List.replicate c.nHosts 0) (List.replicate c.nHosts 0) snaps
 
+/-- The expiry property on three probes of the backend of a failure recorded at time t (max_fails 1):
+inside [t, t + fail_timeout) the failure still counts and the backend is down; after
+t + fail_timeout it does not and the backend is up — however long the request had been running
+when it failed. -/
+def verdictExpiry : List (Int × Bool) → String
+  | [p1, p2, p3] =>
+    if p1.1 < 1 || !p1.2 || p2.1 < 1 || !p2.2 then
+      "bad:expired-early:a recorded failure stopped counting (or the backend was up again) before fail_timeout had passed since it was recorded"
+    else if p3.1 != 0 || p3.2 then
+      "bad:expired-late:a recorded failure still counts (or the backend is still down) well after fail_timeout"
+    else "ok"
+  | _ => "bad:unparsable:probes"
+
 end Casket.AccountingSpec
